@@ -82,7 +82,7 @@ func (s *Weighted) release(n int) bool {
 	if s.cur < 0 {
 		panic("semaphore: released more than held")
 	}
-	return s.notifyWaiters()
+	return s.notifyWaiters() && s.cur == 0
 }
 
 // notify other waiters, if waiter list is empty, return true
